@@ -479,6 +479,20 @@ func (r *Rig) AwaitAll(c *RigClient, calls []*Pending, budget time.Duration) (lo
 					}
 				}
 				if all {
+					// the responses are provably in the client by now; what may still be missing is CPU time for the
+					// callers' own goroutines (decoding a large result on a saturated machine): a lost call stays
+					// lost, a slow one catches up within this grace period
+					for grace := time.Now().Add(2 * time.Second); time.Now().Before(grace); time.Sleep(2 * time.Millisecond) {
+						pending := false
+						for _, p := range cand {
+							if !p.Returned() {
+								pending = true
+							}
+						}
+						if !pending {
+							break
+						}
+					}
 					for _, p := range cand {
 						if !p.Returned() && !r.W.Running(p.Tok) {
 							lost = append(lost, p)
